@@ -37,6 +37,10 @@ ASSUMPTIONS = [
     "codons for monomer models)",
     "an eigen-decomposition back-end (Fast / CheckedExponentiator, expm=eigen / checked) raising ArithmeticError or LinAlgError is an "
     "accepted outcome (it refuses instead of answering; expm=either then falls back to Pade)",
+    "the UNCHECKED eigen route (expm='eigen', FastExponentiator) is documented as valid only for matrices that are 'not too asymmetric': "
+    "it is judged only where Q is well conditioned = condition number of the eigenvector matrix cond(V) <= 1e6 AND positive rates span "
+    "<= 9 orders of magnitude; the skipped evaluations are counted (unchecked_eigen_not_judged_ill_conditioned_Q). The checked routes "
+    "(expm='either' / 'checked', CheckedExponentiator) are judged at the flat 1e-8 everywhere",
     "TaylorExponentiator is only executed for |Q t|_inf <= 200 (it needs ~e*|Qt| matrix products and overflows beyond ~700)",
     "branch lengths through the likelihood function stay inside the declared bounds [0, 10]; t = 100 only with direct exponentiators",
     "discrete-time models (BH, DT) have no rate matrix: only row-stochasticity of their psubs is checked",
@@ -312,6 +316,10 @@ def check_case(name, case, acc, report=True):
 
     def pfail(sig_text, cls, detail):
         """one root cause (eigen-decomposition on a nearly defective Q) -> one signature per route"""
+        if setting == "eigen" and cls == ILL:
+            # unchecked eigen route outside its documented precondition ("not too asymmetric"): not judged
+            acc.count("unchecked_eigen_not_judged_ill_conditioned_Q")
+            return
         if eigen_route and cls == ILL:
             detail = dict(detail, symptom=sig_text)
             route = "either" if setting == "default expm" else setting
@@ -382,6 +390,10 @@ def direct_backends(name, full, Q, wp, fail, acc):
         builders.append(("SemiSymmetricExponentiator", lambda q: me.SemiSymmetricExponentiator(wp, q)))
     refs = {t: F.expm(Q * t) for t in DIRECT_T}
     for bname, mk in builders:
+        if bname == "FastExponentiator" and cls == ILL:
+            # unchecked eigen route outside its documented precondition ("not too asymmetric"): not judged
+            acc.count("unchecked_eigen_not_judged_ill_conditioned_Q", len(DIRECT_T))
+            continue
         try:
             with warnings.catch_warnings():
                 warnings.simplefilter("ignore")
